@@ -46,14 +46,37 @@ def us(stamp):
     return ((h * 60 + mi) * 60 + s) * 1000000 + ms * 1000
 
 
+_SHARED = {}
+
+
+def writer_for(key, factory):
+    """inside a history the SAME writer object serves every step"""
+    if "hist" in _SHARED:
+        return _SHARED["hist"].setdefault(key, factory())
+    return factory()
+
+
 def job(j):
     op = j["op"]
+    if op == "history":
+        _SHARED["hist"] = {}
+        try:
+            steps = []
+            for sj in j["steps"]:
+                try:
+                    steps.append(job(sj))
+                except Exception as e:  # noqa
+                    steps.append({"err": errname(e), "msg": str(e)[:200]})
+            return {"steps": steps}
+        finally:
+            _SHARED.pop("hist", None)
     if op == "dfxp_read":
         return {"langs": langs_of(DFXPReader().read(j["doc"]))}
     if op == "dfxp_write":
         W = {"main": DFXPWriter, "single": SinglePositioningDFXPWriter, "legacy": LegacyDFXPWriter}[j["writer"]]
         cs = build(j["cs"])
-        out = W().write(cs, force=j["force"]) if j["force"] is not None else W().write(cs)
+        w = writer_for("dfxp-" + j["writer"], W)
+        out = w.write(cs, force=j["force"]) if j["force"] is not None else w.write(cs)
         root = etree.fromstring(out.encode("utf-8"))
         divs = []
         for div in root.iter(TTML + "div"):
@@ -69,7 +92,7 @@ def job(j):
         return {"langs": langs_of(SAMIReader().read(j["doc"]))}
     if op == "sami_write":
         cs = build(j["cs"])
-        out = SAMIWriter().write(cs)
+        out = writer_for("sami", SAMIWriter).write(cs)
         soup = BeautifulSoup(out, "lxml")
         body = []
         for sync in soup.find_all("sync"):
@@ -90,7 +113,8 @@ def job(j):
         return res
     if op == "vtt_write":
         cs = build(j["cs"])
-        out = WebVTTWriter().write(cs, lang=j["lang"]) if "lang" in j else WebVTTWriter().write(cs)
+        vw = writer_for("vtt", WebVTTWriter)
+        out = vw.write(cs, lang=j["lang"]) if "lang" in j else vw.write(cs)
         rd = WebVTTReader().read(out, lang="x") if out.strip() != "WEBVTT" else None
         cues = [[c.start, c.get_text()] for c in rd.get_captions("x")] if rd else []
         return {"cues": cues, "doc": out}
